@@ -292,4 +292,28 @@ CHECKS = {
                "same-random-stream correspondence + invariant checks over "
                "seeds",
  },
+ "C11": {
+  "text": "Theorems (all graphs, all node lists): a sub-block taken with two "
+          "node lists has entry (a,b) = M(list1[a], list2[b]) in the order of "
+          "the lists; the unique-pairs loops of the cross-clustering kernels "
+          "equal half the full double sum minus the diagonal for symmetric "
+          "summands; the connected triples counted by the transitivity kernel "
+          "are exactly k(k-1)/2 pairs of cross neighbours (the norm of the "
+          "local clustering); cross degree, local cross clustering and cross "
+          "transitivity do not depend on the order of either list on "
+          "undirected networks. The two kernels are compared with the "
+          "implementation inside Coq on exhaustive small graphs and all "
+          "bipartitions. 31 cross_* / internal_* methods (incl. link-attribute "
+          "and weighted-path variants with zero-length links, directed "
+          "degrees) are compared with NumPy definitions on sub-blocks; "
+          "compiled vs '_sparse' twins; argument-order symmetry; "
+          "whole-network limit. The n.s.i. cross measures are C02's terms.",
+  "design_ref": "DESIGN.md section 5, C11",
+  "note": "trusted: igraph path lengths (the sub-block relation is checked "
+          "on them, not their values); most methods have no Coq model "
+          "(definitions evaluated in NumPy only: partial)",
+  "technique": "Coq proofs (pair-loop algebra over Qc, permutation "
+               "invariance) + vm_compute correspondence of the kernels + "
+               "NumPy sub-block definitions",
+ },
 }
